@@ -78,6 +78,7 @@ class FnSpec:
         self.result = 'res'
         self.noreturn = False
         self.feature = None
+        self.substs = []
         self.line = 0
 
     @property
@@ -194,6 +195,12 @@ def parse_template(lines):
                     last = None
                 elif kw == 'result':
                     spec.result = rest
+                    last = None
+                elif kw == 'subst':
+                    m = re.match(r'^"((?:[^"\\]|\\.)*)"\s*=>\s*"((?:[^"\\]|\\.)*)"$', rest)
+                    if not m:
+                        raise GenError('bad subst at line %d' % i)
+                    spec.substs.append((m.group(1).replace('\\"', '"'), m.group(2).replace('\\"', '"')))
                     last = None
                 elif kw == 'noreturn':
                     spec.noreturn = True
@@ -313,6 +320,7 @@ R4_RULES = [
      r'.vx_second_collect()', None),
     ('R4-chain3', r'(?P<a>\w+)\s*\.\s*payload\s*\.\s*iter\(\)\s*\.\s*cloned\(\)\s*\.\s*chain\(\s*(?P<b>\w+)\.payload\.iter\(\)\.cloned\(\)\s*\)\s*\.\s*chain\(\s*(?P<c>\w+)\.payload\.iter\(\)\.cloned\(\)\s*\)\s*\.\s*collect\(\)',
      r'vx_chain3_collect(&\g<a>.payload, &\g<b>.payload, &\g<c>.payload)', None),
+    ('R11-eta', r'\.\s*map_err\s*\(\s*(?P<c>[A-Z]\w*::[A-Z]\w*)\s*\)', r'.map_err(|e| \g<c>(e))', None),
     ('R4-retain-ge', r'\.\s*retain\s*\(\s*\|\s*k\s*,\s*_\s*\|\s*k\s*>=\s*(?P<r>\w+)\s*\)', r'.vx_retain_keys_ge(\g<r>)', None),
     ('R4-get-map-or-else-stake', r'(?P<e>%s)\s*\.\s*get\s*\(\s*(?P<k>\w+)\s*\)\s*\.\s*map_or_else\s*\(\s*\|\s*\|\s*0\s*,\s*\|\s*x\s*\|\s*x\s*\.\s*stake\s*\)' % _E,
      r'(match \g<e>.get(\g<k>) { None => 0, Some(x) => x.stake })', None),
@@ -830,6 +838,16 @@ class FnEmitter:
             span = (toks[first].start, toks[c].end)
             m = re.search(r'->\s*\(\s*(\w+)\s*:', sigtxt)
 
+        # R10: declared type/receiver substitutions (dependency types -> stub types; `&self` -> `&mut self`
+        #      where a ghost log must be updated through the receiver).  Exact text, counted.
+        for (a_, b_) in spec.substs:
+            n_sig = head.count(a_)
+            n_body = body.count(a_)
+            if n_sig + n_body == 0:
+                raise GenError('lost anchor: subst %r does not occur in %s' % (a_, spec.qname), spec.qname)
+            head = head.replace(a_, b_)
+            body = body.replace(a_, b_)
+            self.fire('R10', '%r -> %r (%d times)' % (a_, b_, n_sig + n_body))
         lines = []
         cmap = []   # (relative line index, clause)
         for a in spec.attrs:
